@@ -218,6 +218,12 @@ def e2e_case(draw):
             if draw(st.booleans()):
                 nw2 = draw(st.sampled_from([len(pkg['wav']), len(pkg['wav']) + 2, 3, 7]))
                 w2 = draw(gen.increasing(nw2, pkg['wav'][0] * 0.8, pkg['wav'][-1] * 1.3, 1.02))
+                if draw(st.booleans()):
+                    # same number of points and same end points, only the interior sampling differs
+                    w = pkg['wav']
+                    nw2 = len(w)
+                    w2 = [w[0]] + [w[i] + draw(st.floats(-0.45, 0.45, allow_nan=False)) * min(w[i] - w[i - 1], w[i + 1] - w[i])
+                                   for i in range(1, nw2 - 1)] + [w[-1]]
                 by_model[m] = w2
                 base = [draw(gen.logfloat(1e-2, 1e3)) for _ in range(nw2)]
                 pkg['flux'][m] = [[base[w] * (1. + 0.37 * ai) * (1. + 0.011 * ((7 * m + 3 * ai + w) % 13)) for w in range(nw2)]
@@ -248,15 +254,17 @@ def stored(pkg, fmt):
     """the package with the values a float32 cube can hold"""
     if fmt == 'v2' and pkg['cube_dtype'] == 'f4':
         q = dict(pkg)
-        q['flux'] = [[[float(np.float32(v)) for v in row] for row in mod] for mod in pkg['flux']]
-        q['err'] = [[[float(np.float32(v)) for v in row] for row in mod] for mod in pkg['err']]
+        c = 1e-3 if pkg.get('cube_unit', 'mJy') == 'Jy' else 1.
+        q['flux'] = [[[float(np.float32(v * c)) / c for v in row] for row in mod] for mod in pkg['flux']]
+        q['err'] = [[[float(np.float32(v * c)) / c for v in row] for row in mod] for mod in pkg['err']]
         return q
     return pkg
 
 
 def run_e2e(case, ctx):
     pkg, filters, fmt = case['pkg'], case['filters'], case['format']
-    labels = {'format_' + fmt, 'storage_' + pkg['storage'], 'n_ap=%d' % (1 if pkg['apertures'] is None else len(pkg['apertures']))}
+    labels = {'format_' + fmt, 'storage_' + pkg['storage'], 'n_ap=%d' % (1 if pkg['apertures'] is None else len(pkg['apertures'])),
+              'stored_unit_' + (pkg.get('sed_unit', 'mJy') if fmt == 'v1' else pkg.get('cube_unit', 'mJy')).replace(' ', '_')}
     f32 = fmt == 'v2' and pkg['cube_dtype'] == 'f4'
     if f32:
         labels.add('float32_cube')
